@@ -98,7 +98,10 @@ class safe:
             t = str(e)
             if len(t) > 2000:  # engines put their own message after the (long) SQL text: keep both ends
                 t = t[:1300] + " ... " + t[-700:]
-            out = {"__error__": type(e).__name__, "text": t, "tb": traceback.format_exc()[-8000:]}
+            tb = traceback.format_exc()
+            if len(tb) > 9000:  # the frames come first, a (possibly huge) message last: keep both so that impl_error sees the frames
+                tb = "".join(traceback.format_tb(e.__traceback__))[-6000:] + "\n ... \n" + tb[-3000:]
+            out = {"__error__": type(e).__name__, "text": t, "tb": tb}
             if isinstance(getattr(e, "partial", None), dict):
                 out["partial"] = e.partial  # what the worker had produced before the real code raised
             return out
